@@ -275,6 +275,8 @@ class SArr:
             raise Unsupported(f"{what} on a variable-length array")
 
     def ravel(self):
+        if self.n is not None and _bi.all(d == 1 for d in self.shape_cap[1:]):
+            return SArr(self.buf, self.offs, (self.shape_cap[0],), self.n, self.dtype)
         self._full("ravel")
         return SArr(self.buf, self.offs, (len(self.offs),), None, self.dtype)
 
@@ -340,6 +342,9 @@ class SArr:
     def squeeze(self, axis=None):
         if self.n is not None and self.ndim == 1:
             return self
+        if self.n is not None and _bi.all(d == 1 for d in self.shape_cap[1:]):
+            # (n, 1, ...) -> (n,)   NB: numpy would also drop the first axis when n == 1 (0-d result); callers here index or iterate
+            return SArr(self.buf, self.offs, (self.shape_cap[0],), self.n, self.dtype)
         self._full("squeeze")
         shp = tuple(d for d in self.shape_cap if d != 1)
         return SArr(self.buf, self.offs, shp, None, self.dtype)
@@ -1808,6 +1813,8 @@ UNIQUE_MODE = ["relational"]     # "relational" (contract) or "rank" (functional
 
 def unique(a, return_index=False, return_inverse=False, return_counts=False, axis=None):
     a = asarray(a)
+    if a.n is not None and a.ndim > 1 and axis is None and _bi.all(d == 1 for d in a.shape_cap[1:]):
+        a = a.ravel()
     if a.n is not None and a.ndim == 1:
         return _unique_varlen(a, return_index, return_inverse, return_counts)
     a._full("unique")
